@@ -44,7 +44,7 @@ var allOnes64 = bvLit(64, ^uint64(0))
 
 // abstract per-object field store written by the Set* methods
 var rvStateHeaps = [][2]string{{"rvInt", sBV64}, {"rvFlt", sF64}, {"rvStrS", sBV64}, {"rvStrO", sBV64}, {"rvStrL", sBV64}, {"rvRef", sBV64}, {"rvOff", sBV64},
-	{"rvLen", sBV64}, {"rvSrcMt", sBV64}, {"rvTsec", sBV64}, {"rvTns", sBV64}, {"rvTzoff", sBV64}, {"rvTzid", sBV64}}
+	{"rvLen", sBV64}, {"rvNilF", sBV64}, {"rvSrcMt", sBV64}, {"rvTsec", sBV64}, {"rvTns", sBV64}, {"rvTzoff", sBV64}, {"rvTzid", sBV64}}
 
 func rvType() types.Type { return reflectValueType }
 
@@ -190,6 +190,7 @@ func init() {
 		vc.rvStore(st, "rvRef", sBV64, v, x.L[0])
 		vc.rvStore(st, "rvOff", sBV64, v, x.L[1])
 		vc.rvStore(st, "rvLen", sBV64, v, x.L[2])
+		vc.rvStore(st, "rvNilF", sBV64, v, ite(eq(x.L[0], bvLit(64, 0)), bvLit(64, 1), bvLit(64, 0)))
 		return Val{T: rt}
 	})
 	reg("(reflect.Value).Set", func(vc *VC, fr *Frame, st *State, call *ssa.CallCommon, args []Val, rt types.Type) Val {
@@ -205,6 +206,8 @@ func init() {
 			}
 			vc.rvStore(st, "rvInt", sBV64, v, ite(or(eq(v.L[iCls], cls(clsLat)), eq(v.L[iCls], cls(clsLng))), vc.rvLoad(st, "plain!rvInt", sBV64, x.L[iObj], bvLit(64, 0)), vc.rvLoad(st, "rvInt", sBV64, v.L[iObj], cellKey(v))))
 			vc.rvStore(st, "rvLen", sBV64, v, vc.rvLoad(st, "plain!rvLen", sBV64, x.L[iObj], bvLit(64, 0)))
+			// whether the assigned slice is nil is not tracked: unspecified afterwards
+			vc.rvStore(st, "rvNilF", sBV64, v, vc.freshConst("rvnilset", sBV64))
 		}
 		return Val{T: rt}
 	})
@@ -250,6 +253,7 @@ func init() {
 				set("rvInt", bvExtend(pv.L[0], 32, 64, true))
 			case clsSlice:
 				set("rvLen", pv.L[2])
+				set("rvNilF", ite(eq(pv.L[0], bvLit(64, 0)), bvLit(64, 1), bvLit(64, 0)))
 			}
 			ec, ew := 0, 0
 			if slt, ok := pv.T.Underlying().(*types.Slice); ok {
@@ -308,11 +312,12 @@ func init() {
 		vc.oblige(st, "pre@reflect.Value.Len", "slice", and(not(eq(v.L[iMt], bvLit(64, rvInvalid))), eq(v.L[iCls], cls(clsSlice))), call.Pos(), vc.safetyProps)
 		return Val{T: rt, L: []string{rvLenOf(vc, st, v)}}
 	})
-	// IsNil of a slice: unspecified, except that a nil slice is empty
+	// IsNil of a slice: a function of the viewed cell (ghost attribute rvNilF, left unspecified), except that a
+	// nil slice is empty
 	reg("(reflect.Value).IsNil", func(vc *VC, fr *Frame, st *State, call *ssa.CallCommon, args []Val, rt types.Type) Val {
 		v := args[0]
 		vc.oblige(st, "pre@reflect.Value.IsNil", "slice", and(not(eq(v.L[iMt], bvLit(64, rvInvalid))), eq(v.L[iCls], cls(clsSlice))), call.Pos(), vc.safetyProps)
-		isnil := vc.freshConst("rvnil", sBool)
+		isnil := vc.define("rvnil", sBool, not(eq(vc.rvLoad(st, "rvNilF", sBV64, v.L[iObj], cellKey(v)), bvLit(64, 0))))
 		vc.assume(st.cond, imp(isnil, eq(rvLenOf(vc, st, v), bvLit(64, 0))))
 		return Val{T: rt, L: []string{isnil}}
 	})
